@@ -249,6 +249,15 @@ func genUnits(r *rand.Rand) unitsIn {
 	if cls != 1 && r.Intn(3) != 0 {
 		in.Costs[0] = uint64(r.Intn(50))
 	}
+	if r.Intn(7) == 0 {
+		// sums on the 2^64 edge built from a huge per-key cost and SMALL per-chunk costs: with m declared keys the key
+		// part is just below 2^64 and a few chunks times a small value cost carry the total across (or not)
+		m := uint64(1 + r.Intn(4))
+		for _, i := range []int{1, 3, 5} {
+			in.Costs[i] = blockgen.MaxU/m - uint64(r.Intn(300))
+			in.Costs[i+1] = uint64(r.Intn(60))
+		}
+	}
 	nAct := 1 + r.Intn(4)
 	var pool [][]byte
 	for i := 0; i < nAct; i++ {
